@@ -126,6 +126,7 @@ def main(argv=None):
     def budget_of(m):
         if a.tier == 'thorough':
             b = m.get('tbudget') or m['budget'] * THOROUGH_FACTOR
+            b = min(b, 3000)        # no single obligation may hold the thorough tier for more than 50 minutes
         else:
             b = m['budget']
         return b * a.budget_scale
